@@ -142,12 +142,17 @@ def _subscript(ty: t.Any, base: t.Any, args: t.Tuple[t.Any, ...]) -> t.Any:
         return ty.copy_with((args[0],))
     result = base[args]
     if len(t.get_args(result)) == len(args) and not all(_same_spelling(x, y) for (x, y) in zip(t.get_args(result), args)):
-        uncached = getattr(type(base).__getitem__, '__wrapped__', None)
-        if uncached is not None:
-            try:
-                return uncached(base, args)
-            except Exception:
-                pass
+        try:
+            if base is t.Union:
+                # (the undecorated subscription of the special form)
+                uncached = getattr(getattr(type(base), '__getitem__', None), '__wrapped__', None)
+                if uncached is not None:
+                    return uncached(base, args)
+            elif hasattr(ty, 'copy_with'):
+                # a subscripted generic class (``ValueOrList[T]``): a copy of the alias with the new arguments
+                return ty.copy_with(args)
+        except Exception:
+            pass
     return result
 
 
